@@ -379,21 +379,33 @@ C15_MODES = [
     {"mode": "bufflush", "cap": 4, "flush_ms": 1},
     {"mode": "async", "pool": 1, "mcapa": 2, "flush_ms": 0},
     {"mode": "async", "pool": 4, "mcapa": 64, "flush_ms": 1},
+    # the writer thread is held at its hook point until the shutdown: everything that goes through the channel queues
+    # up, so a path that bypasses the channel would overtake (histories without forced rotation only)
+    {"mode": "async", "pool": 2, "mcapa": 64, "flush_ms": 0, "hold": True},
 ]
 
 
 def _c15_group(grp, base_cfg, steps, origin, sc0, tag=None):
     out = []
     ctrl = any(st.get("op") == "Chunk" and st.get("hex") in ("46", "53") for st in steps)
-    for j, m in enumerate(C15_MODES):
+    has_trigger = any(st.get("op") == "Trigger" for st in steps)
+    k = -1
+    for m in C15_MODES:
+        if m.get("hold") and has_trigger:
+            continue
+        k += 1
+        j = k
         c = dict(base_cfg)
-        c.update(m)
+        c.update({x: y for x, y in m.items() if x != "hold"})
         c["via"] = "flw"
         t = {"ctrl_chunk": ctrl}
         if tag:
             t.update(tag)
+        sts = [dict(s) for s in steps]
+        if m.get("hold"):
+            sts.insert(1, {"op": "HoldWriter"})
         out.append({"sc": sc0 + j, "grp": grp, "cfg": c, "t0": 1000, "raw": True, "obs": "sync",
-                    "steps": [dict(s) for s in steps], "origin": origin, "tag": t})
+                    "steps": sts, "origin": origin, "tag": t})
     return out
 
 
